@@ -104,6 +104,13 @@ def neg : Num → Num
     | '-' :: r => .dec (String.ofList r)
     | cs => .dec (String.ofList ('-' :: cs))
 
+/-- `big_float_cmp` (fix 18a519c): every integer lies strictly between the infinities, also
+when its conversion to a float overflows -/
+def bigFloatCmp (i : Int) (f : UInt64) : Ordering :=
+  if f == F64.posInf then .lt
+  else if f == F64.negInf then .gt
+  else F64.cmp (F64.ofInt i) f
+
 /-- `impl Ord for Num` -/
 def cmp (a b : Num) : Ordering :=
   match undec a, undec b with
@@ -112,9 +119,9 @@ def cmp (a b : Num) : Ordering :=
   | .big x, .int y => compare x y
   | .big x, .big y => compare x y
   | .int i, .float f => F64.cmp (F64.ofInt i) f
-  | .big i, .float f => F64.cmp (F64.ofInt i) f
+  | .big i, .float f => bigFloatCmp i f
   | .float f, .int i => F64.cmp f (F64.ofInt i)
-  | .float f, .big i => F64.cmp f (F64.ofInt i)
+  | .float f, .big i => (bigFloatCmp i f).swap
   | .float x, .float y => F64.cmp x y
   | _, _ => .eq
 
@@ -139,7 +146,8 @@ float conversion is infinite. -/
 def hashFeed (n : Num) : List Int :=
   match undec n with
   | .int i => [0, Int.ofNat (F64.ofInt i).toNat]
-  | .float f => if F64.isFinite f then [0, Int.ofNat f.toNat] else [0]
+  | .float f =>   -- zero is normalised before hashing (fix 7eb4a6b)
+    if F64.isFinite f then [0, Int.ofNat (if F64.isZero f then F64.posZero else f).toNat] else [0]
   | .big i =>
     let f := F64.ofInt i
     if F64.isFinite f then [0, Int.ofNat f.toNat] else [1, i]
@@ -154,7 +162,7 @@ def asIsize : Num → Option Int
 /-- `Num::as_pos_usize`: `(nonnegative, magnitude)` when the magnitude fits a `usize` -/
 def asPosUsize : Num → Option (Bool × Nat)
   | .int i => some (i ≥ 0, i.natAbs)
-  | .big i => if Int.ofNat i.natAbs ≤ usizeMax then some (!(i < 0), i.natAbs) else none
+  | .big i => some (!(i < 0), if Int.ofNat i.natAbs ≤ usizeMax then i.natAbs else usizeMax.toNat)  -- saturates (fix e4bf705)
   | _ => none
 
 /-- `Num::length` (absolute value) -/
